@@ -1,7 +1,8 @@
-"""Unit `server`: definitions handlers of server/src/server.rs (C18: endpoints = workspace operations)."""
+"""Unit `server`: definitions handlers of server/src/server.rs (C18, C17: endpoints = workspace operations)."""
 S = 'server/src/server.rs'
-P = ['C18']
-A = ['C18']
+# the definitions handlers are how a history of operations reaches the workspace when it is driven by the service: their clauses serve C17 too
+P = ['C18', 'C17']
+A = ['C18', 'C17']
 DEC = [('RX', 'R11', r'base64::decode\(content\)', 'base64_decode(content)', 1),
        ('RX', 'R11', r'String::from_utf8\(bytes\)', 'string_from_utf8(bytes)', 1),
        ('RX', 'R11', r'dmntk_model::parse\(&xml\)', 'model_parse(&xml)', 1)]
@@ -39,7 +40,7 @@ UNIT = {
           ensures=[('is_workspace_deploy', '(r is Ok == ws_deploy_ok(ws(*old(workspace)))) && (r is Ok ==> ws(*final(workspace)) == ws_deploy(ws(*old(workspace)))) && (r is Err ==> ws(*final(workspace)) == ws(*old(workspace)))')]),
     ],
 }
-NOT_DECIDED = {'C18': ['well-formedness of the JSON text: jsonify is string code outside Verus\' reach - only the BOUNDED stand-in evaluate-response-is-json looks at it; values without a JSON rendering (functions, ranges, Infinity / NaN numbers: C02 known findings) are not decided',
+NOT_DECIDED = {'C17': ['the meaning of the workspace operations themselves: unit workspace'], 'C18': ['well-formedness of the JSON text: jsonify is string code outside Verus\' reach - only the BOUNDED stand-in evaluate-response-is-json looks at it; values without a JSON rendering (functions, ranges, Infinity / NaN numbers: C02 known findings) are not decided',
                        'TCK DTO round trip: the structure of the conversions is proved in unit dto; the text forms of scalars and names (A-text) only by the BOUNDED stand-in tck-dto-round-trip; lock poisoning, body limits; actix routing and survival after malformed requests only through the BOUNDED stand-in http-histories-on-the-real-service',
                        'do_evaluate / do_evaluate_tck take &Workspace: they cannot modify it (enforced by the type checker, not by a contract)']}
 ASSUMPTIONS = ['the workspace operations are uninterpreted state transformers here; their meaning is proved in unit workspace (C17)',
@@ -57,6 +58,7 @@ BOUNDED = {
                       'every response is a well-formed JSON document, failures are in `errors`, successes in `data`, answers equal a reference workspace written out from the property (a rejected or malformed request changes nothing), and the service keeps answering'},
             {'name': 'tck-dto-round-trip', 'driver': 'tck', 'args': [],
              'functions': ['server/src/dto.rs (compiled into the driver from the repository file): TryFrom<&Value> for ValueDto, TryFrom<&ValueDto / &SimpleDto / &Vec<ComponentDto> / &ComponentDto / &ListDto / &Vec<ValueDto>> for WrappedValue', 'serde_json (real)'],
-             'bound': '1 428 values: 68 scalars of every TCK kind (strings with quotes, backslashes, control and non-ASCII characters; numbers; booleans; null; dates; times with and without offset; date-times; both duration kinds) and the lists / '
+             'bound': '33 typed texts as a client sends them (every xsd type tag, integers at and beyond the 64-bit ranges, invalid texts: decoded to the FEEL value of the text or rejected, never a panic) and '
+                      '1 428 values: 68 scalars of every TCK kind (strings with quotes, backslashes, control and non-ASCII characters; numbers; booleans; null; dates; times with and without offset; date-times; both duration kinds) and the lists / '
                       'contexts built from them to nesting depth 2 (empty, singleton, pairs, names with spaces): value -> DTO -> JSON text -> DTO -> value gives the value back (null messages aside)'}],
 }
